@@ -83,6 +83,27 @@ def run_case(arg):
                 break
             if not all(np.array_equal(a, b) for a, b in zip(images, images0)):
                 bad("C15:inputs-modified", "the caller's images were modified")
+            # the VALUES land where the coordinates say: one bright pixel, handed over C-ordered, Fortran-ordered or as
+            # a transposed view, is deposited around the exact canvas position of that pixel
+            # an interior pixel (next to the border the count normalisation pulls the centroid inwards)
+            r0 = R // 2 if R < 5 else R // 2 - idx % 2
+            c0 = C // 2 if C < 5 else C // 2 - (idx // 2) % 2
+            delta = np.zeros((R, C))
+            delta[r0, c0] = 1.0
+            lay = idx % 3
+            dimg = delta if lay == 0 else np.asfortranarray(delta) if lay == 1 else np.ascontiguousarray(delta.T).T
+            dc = build([dimg, dimg.copy()], [theta, theta], max(pf, 0.25), 1 + idx % 4, kde=0.5)
+            wimg = np.asarray(dc.images_warped.array[0], float)
+            tot = wimg.sum()          # (the warped image is signal / weight: its total is not the deposited mass)
+            if not tot > 1e-6:
+                bad("C15:value-placement", f"one unit pixel ({['C', 'F', 'transposed view'][lay]} order) leaves nothing on the canvas")
+            else:
+                gx, gy = np.meshgrid(np.arange(wimg.shape[0]), np.arange(wimg.shape[1]), indexing="ij")
+                cx, cy = float((wimg * gx).sum() / tot), float((wimg * gy).sum() / tot)
+                xa, ya = coords(dc, 0)
+                if max(abs(cx - xa[r0, c0]), abs(cy - ya[r0, c0])) > 0.2:
+                    bad("C15:value-placement", f"pixel ({r0},{c0}) of a {['C', 'F', 'transposed view'][lay]}-ordered image lands at "
+                                               f"({cx:.3f},{cy:.3f}), its coordinates are ({xa[r0, c0]:.3f},{ya[r0, c0]:.3f})")
             # preprocess is a function of its arguments and the current scan directions: the SAME object, first
             # preprocessed with another direction / pad fraction / knot count, must give the exact placement again
             other = [35.0, (theta + 90) % 360, 200.5][idx % 3]
